@@ -15,7 +15,7 @@ RULE = ("parser-produced circuits x override dictionaries x pass sequences over 
 ASSUMPTIONS = ["a sequence in which a pass raises JaqalError is 'not applicable' and only counted",
                "reference full meaning from vf/meaning.py"]
 TIERS = {"quick": {"shards": 8, "budget_s": 320}, "thorough": {"shards": 16, "budget_s": 480}}
-REQUIRE = {"outer-aliases-used-in-a-macro-whose-parameter-shadows-their-constant": 40, "override-dictionary-object-kept-for-a-program-with-other-declared-values": 150, "alias-chain-programs": 150, "programs-loading-their-gates-from-a-pulse-module": 50, "programs-with-the-gate-set-in-force": 150, "parser-flags-with-another-option": 500, "macro-named-like-a-bounding-gate": 30, "sequences-judged": 3000, "idempotence-checked": 1000, "parser-flag-combinations": 500, "reparse-checked": 3000,
+REQUIRE = {"outer-aliases-used-in-a-macro-whose-parameter-shadows-their-constant": 40, "override-dictionary-object-kept-for-a-program-with-other-declared-values": 100, "alias-chain-programs": 150, "programs-loading-their-gates-from-a-pulse-module": 50, "programs-with-the-gate-set-in-force": 150, "parser-flags-with-another-option": 500, "macro-named-like-a-bounding-gate": 15, "sequences-judged": 3000, "idempotence-checked": 1000, "parser-flag-combinations": 500, "reparse-checked": 3000,
            "seq-len-4": 300}
 
 PASSES = "SLMA"
